@@ -550,6 +550,27 @@ def x86_prefix_class(raw, mode):
     return ""
 
 
+def x86_prefix_set(raw, mode):
+    """set of prefix kinds present: g1 (lock/rep/repne), o, a, seg, rex"""
+    seen = set()
+    i = 0
+    raw = bytearray(raw)
+    while i < len(raw) and raw[i] in _X86_LEGACY:
+        k = _X86_LEGACY[raw[i]]
+        seen.add("g1" if k in ("lock", "rep", "repne") else k)
+        i += 1
+    if mode == 64 and i < len(raw) and 0x40 <= raw[i] <= 0x4F:
+        seen.add("rex")
+    return seen
+
+
+def x86_prefix_delta(orig, cand, mode):
+    """how the prefixes of a proposed encoding differ from the decoded bytes: 'cand+a', 'cand-rex+o', 'same'"""
+    a, b = x86_prefix_set(orig, mode), x86_prefix_set(cand, mode)
+    out = ["+" + k for k in sorted(b - a)] + ["-" + k for k in sorted(a - b)]
+    return "cand" + "".join(out) if out else "same_prefixes"
+
+
 def x86_strip_legacy(raw, only=None):
     """remove the legacy prefixes (all of them, or only the kinds in `only`, e.g. lock/rep/repne)"""
     raw = bytearray(raw)
